@@ -1,0 +1,32 @@
+//go:build verif
+
+// Contracts for the deductive verifier in /verif (govc). This file contains no code: with the
+// build tag off it is not part of the package, with it on it adds nothing to the build.
+package feemarket
+
+//@ import sdk "github.com/cosmos/cosmos-sdk/types"
+//@ import abci "github.com/cometbft/cometbft/abci/types"
+//@ import feemarketkeeper "github.com/EscanBE/evermint/v12/x/feemarket/keeper"
+//@ import feemarkettypes "github.com/EscanBE/evermint/v12/x/feemarket/types"
+
+// ---------------------------------------------------------------------------------------------
+// genesis.go (C18). The fee-market view of a store layer is the stored Params record
+//     feeView(l) = (fmBaseFeeNil[l], fmBaseFee[l], fmMinGasPrice[l])          (prelude/00_world.spec)
+// — Params has exactly these two fields (base fee, min gas price), so the view is the whole module state.
+// ExportGenesis returns a structure that DETERMINES the view (decode = read the two fields back);
+// InitGenesis installs exactly the given parameters or panics (invalid parameters), changing nothing else.
+// Round trip (composition of the two clauses): for every state with a valid stored record (base fee not nil and >= 0,
+// min gas price >= 0 — the invariant SetParams maintains) InitGenesis(ExportGenesis(s)) does not panic and yields
+// feeView' == feeView(s); exporting again yields the same structure (export is a function of the view).
+// The store/codec level below GetParams / SetParams is the trusted summary in x/feemarket/keeper/verif_contracts.go.
+// ---------------------------------------------------------------------------------------------
+//@ func ExportGenesis(ctx sdk.Context, k feemarketkeeper.Keeper) (gs *feemarkettypes.GenesisState)
+//@   modifies nothing
+//@   ensures[C18.fee_export_determines_view] gs != nil && fresh(gs) && inil(gs.Params.BaseFee) == fmBaseFeeNil[layer(ctx)] && (!fmBaseFeeNil[layer(ctx)] ==> iv(gs.Params.BaseFee) == fmBaseFee[layer(ctx)]) && !dnil(gs.Params.MinGasPrice) && dv(gs.Params.MinGasPrice) == fmMinGasPrice[layer(ctx)]
+//@   panics[C18.fee_export_never_panics] never
+
+//@ func InitGenesis(ctx sdk.Context, k feemarketkeeper.Keeper, data feemarkettypes.GenesisState) (updates []abci.ValidatorUpdate)
+//@   modifies fmBaseFee[layer(ctx)], fmBaseFeeNil[layer(ctx)], fmMinGasPrice[layer(ctx)]
+//@   ensures[C18.fee_init_restores_view] !fmBaseFeeNil[layer(ctx)] && fmBaseFee[layer(ctx)] == iv(data.Params.BaseFee) && fmMinGasPrice[layer(ctx)] == dv(data.Params.MinGasPrice)
+//@   ensures[C18.fee_init_no_validator_updates] len(updates) == 0
+//@   panics[C18.fee_init_rejects_invalid] iff inil(data.Params.BaseFee) || iv(data.Params.BaseFee) < 0 || dnil(data.Params.MinGasPrice) || dv(data.Params.MinGasPrice) < 0
